@@ -771,17 +771,25 @@ namespace occa {
   }
 
   primitive primitive::rightShift(const primitive &a, const primitive &b) {
-    const int retType = (a.type > b.type) ? a.type : b.type;
-    switch(retType) {
-      case primitiveType::bool_   : return primitive(a.to<bool>()     >> b.to<bool>());
-      case primitiveType::int8_   : return primitive(a.to<int8_t>()   >> b.to<int8_t>());
-      case primitiveType::uint8_  : return primitive(a.to<uint8_t>()  >> b.to<uint8_t>());
-      case primitiveType::int16_  : return primitive(a.to<int16_t>()  >> b.to<int16_t>());
-      case primitiveType::uint16_ : return primitive(a.to<uint16_t>() >> b.to<uint16_t>());
-      case primitiveType::int32_  : return primitive(a.to<int32_t>()  >> b.to<int32_t>());
-      case primitiveType::uint32_ : return primitive(a.to<uint32_t>() >> b.to<uint32_t>());
-      case primitiveType::int64_  : return primitive(a.to<int64_t>()  >> b.to<int64_t>());
-      case primitiveType::uint64_ : return primitive(a.to<uint64_t>() >> b.to<uint64_t>());
+    // The result has the (promoted) type of the left operand,
+    //   the right operand is only the shift count
+    if ((a.type | b.type) & primitiveType::none) {
+      return primitive();
+    }
+    if (b.type & primitiveType::isFloat) {
+      OCCA_FORCE_ERROR("Cannot apply operator >> to float type");
+    }
+    const int64_t count = b.to<int64_t>();
+    switch(a.type) {
+      case primitiveType::bool_   : return primitive(a.to<bool>()     >> count);
+      case primitiveType::int8_   : return primitive(a.to<int8_t>()   >> count);
+      case primitiveType::uint8_  : return primitive(a.to<uint8_t>()  >> count);
+      case primitiveType::int16_  : return primitive(a.to<int16_t>()  >> count);
+      case primitiveType::uint16_ : return primitive(a.to<uint16_t>() >> count);
+      case primitiveType::int32_  : return primitive(a.to<int32_t>()  >> count);
+      case primitiveType::uint32_ : return primitive(a.to<uint32_t>() >> count);
+      case primitiveType::int64_  : return primitive(a.to<int64_t>()  >> count);
+      case primitiveType::uint64_ : return primitive(a.to<uint64_t>() >> count);
       case primitiveType::float_  : OCCA_FORCE_ERROR("Cannot apply operator >> to float type");   break;
       case primitiveType::double_ : OCCA_FORCE_ERROR("Cannot apply operator >> to double type");  break;
       default: ;
@@ -790,17 +798,25 @@ namespace occa {
   }
 
   primitive primitive::leftShift(const primitive &a, const primitive &b) {
-    const int retType = (a.type > b.type) ? a.type : b.type;
-    switch(retType) {
-      case primitiveType::bool_   : return primitive(a.to<bool>()     << b.to<bool>());
-      case primitiveType::int8_   : return primitive(a.to<int8_t>()   << b.to<int8_t>());
-      case primitiveType::uint8_  : return primitive(a.to<uint8_t>()  << b.to<uint8_t>());
-      case primitiveType::int16_  : return primitive(a.to<int16_t>()  << b.to<int16_t>());
-      case primitiveType::uint16_ : return primitive(a.to<uint16_t>() << b.to<uint16_t>());
-      case primitiveType::int32_  : return primitive(a.to<int32_t>()  << b.to<int32_t>());
-      case primitiveType::uint32_ : return primitive(a.to<uint32_t>() << b.to<uint32_t>());
-      case primitiveType::int64_  : return primitive(a.to<int64_t>()  << b.to<int64_t>());
-      case primitiveType::uint64_ : return primitive(a.to<uint64_t>() << b.to<uint64_t>());
+    // The result has the (promoted) type of the left operand,
+    //   the right operand is only the shift count
+    if ((a.type | b.type) & primitiveType::none) {
+      return primitive();
+    }
+    if (b.type & primitiveType::isFloat) {
+      OCCA_FORCE_ERROR("Cannot apply operator << to float type");
+    }
+    const int64_t count = b.to<int64_t>();
+    switch(a.type) {
+      case primitiveType::bool_   : return primitive(a.to<bool>()     << count);
+      case primitiveType::int8_   : return primitive(a.to<int8_t>()   << count);
+      case primitiveType::uint8_  : return primitive(a.to<uint8_t>()  << count);
+      case primitiveType::int16_  : return primitive(a.to<int16_t>()  << count);
+      case primitiveType::uint16_ : return primitive(a.to<uint16_t>() << count);
+      case primitiveType::int32_  : return primitive(a.to<int32_t>()  << count);
+      case primitiveType::uint32_ : return primitive(a.to<uint32_t>() << count);
+      case primitiveType::int64_  : return primitive(a.to<int64_t>()  << count);
+      case primitiveType::uint64_ : return primitive(a.to<uint64_t>() << count);
       case primitiveType::float_  : OCCA_FORCE_ERROR("Cannot apply operator << to float type");   break;
       case primitiveType::double_ : OCCA_FORCE_ERROR("Cannot apply operator << to double type");  break;
       default: ;
